@@ -165,7 +165,9 @@ def filter_uses_doc(flt):
 # --------------------------------------------------------------------------------------
 # generators
 
-SCALARS = [0, 1, 2, -1, -2, 1.0, 2.0, -1.0, -2.0, 0.5, 1.5, True, False, None, "x", "1", "abc", "", "x y"]
+BIG = 2 ** 63 - 1  # an integer no double represents (seeds, nanosecond timestamps)
+SCALARS = [0, 1, 2, -1, -2, 1.0, 2.0, -1.0, -2.0, 0.5, 1.5, True, False, None, "x", "1", "abc", "", "x y", BIG, BIG - 2,
+           float(2 ** 63)]
 LISTS = [[1], [1, 2], [1.0], ["x"], [], [True], [[1], 2]]
 SP_KEYS = ["a", "b"]
 DOC_KEYS = ["d"]
